@@ -233,7 +233,7 @@ PROPS["C13"] = {
     "engine": "cooperative scheduler (harness/common/sched.h) + rapidcheck",
     "technique": "systematic schedule enumeration (stateless depth-first search over a harness-owned cooperative scheduler at the hook points) plus rapidcheck-generated schedules; oracle = history invariants (multiset, per-producer order, no missed wake-up)",
     "level_text": "Every sequentially consistent interleaving at hook-point granularity is executed for the small configurations (exhaustive: true refers to those); larger configurations are sampled. Real code, real eventfd/epoll objects.",
-    "level_note": "Sequentially consistent interleavings only, at the granularity of the five hook points (what the property quantifies over); weak-memory effects are not explored. Needs the PISTACHE_VERIF_HOOKS yield points in mailbox.h. Of the framework's five drain loops the last stage runs the client's two (connection queue, request queue); the server transport's write queue is driven by C06's harness and, together with its peer and timer queues, by the stage c13_server_drains.cc (batches queued behind held workers).",
+    "level_note": "Sequentially consistent interleavings only, at the granularity of the five hook points (what the property quantifies over); weak-memory effects are not explored. Needs the PISTACHE_VERIF_HOOKS yield points in mailbox.h; a shared access that has no hook next to it is fused with its neighbours under the scheduler and is only reached by the free-running stage (c13_freerun.cc), which samples real schedules and enumerates nothing. Of the framework's five drain loops the last stage runs the client's two (connection queue, request queue); the server transport's write queue is driven by C06's harness and, together with its peer and timer queues, by the stage c13_server_drains.cc (batches queued behind held workers).",
     "assumptions": ["the five yield points are the only accesses to state shared between producer and consumer", "poll(eventfd, 0) is the readiness the event loop would see (level-triggered registration)"],
     "quick": {"stages": [{"kind": "replay"},
                          {"kind": "enum", "scope": "all schedules of 1x1, 1x2, 1x3, 2x1 with 0 and 1 early poll (2x1+early-poll capped at 400000 schedules per partition)",
